@@ -227,6 +227,18 @@ fn local_name(n: &Node, style: Option<Style>, ident: &str, name_override: &Optio
     }
 }
 
+/// how a flattened child is held, decided by the field's value and the child's close mode: 0 =
+/// bare, 1 = `Option<Child>` holding Some, 2 = `Option<Child>` holding None (contributes nothing),
+/// 4 = `Arc<Child>` (needs a child closeable by reference)
+pub fn flatten_wrap(val: u32, child: &Node) -> u8 {
+    match val % 7 {
+        0 => 1,
+        1 => 2,
+        2 if child.mode == Mode::Subfield => 4,
+        _ => 0,
+    }
+}
+
 fn child_ctx(style: Option<Style>, chain: &str, prefix: &Option<Pfx>, d9: bool) -> String {
     if d9 {
         return chain.to_string();
@@ -298,6 +310,10 @@ fn fields_expected(n: &Node, style: Option<Style>, chain: &str, d9: bool, fields
                 });
             }
             FKind::Flatten { child, prefix } => {
+                if flatten_wrap(f.val, child) == 2 {
+                    // an absent flattened Option contributes no item and no sample-group pair
+                    continue;
+                }
                 let c = child_ctx(style, chain, prefix, d9);
                 expected(child, &NameCtx { style, chain: c, d9_sample_group_names: d9 }, out, sg);
             }
@@ -446,7 +462,12 @@ fn field_decl(f: &Field, defs: &mut Vec<String>, named: bool) -> String {
         }
         FKind::Flatten { child, prefix } => {
             emit_type(child, defs);
-            format!("    #[metrics(flatten{})]\n    {id}{},\n", pfx_attr(prefix), child.type_name)
+            let t = match flatten_wrap(f.val, child) {
+                1 | 2 => format!("Option<{}>", child.type_name),
+                4 => format!("std::sync::Arc<{}>", child.type_name),
+                _ => child.type_name.clone(),
+            };
+            format!("    #[metrics(flatten{})]\n    {id}{t},\n", pfx_attr(prefix))
         }
     }
 }
@@ -467,7 +488,12 @@ fn field_init(f: &Field, named: bool) -> String {
             active,
             ..
         } => format!("{id}{type_name}::{}", variants[*active % variants.len()].0),
-        FKind::Flatten { child, .. } => format!("{id}{}", instance(child)),
+        FKind::Flatten { child, .. } => match flatten_wrap(f.val, child) {
+            1 => format!("{id}Some({})", instance(child)),
+            2 => format!("{id}None"),
+            4 => format!("{id}std::sync::Arc::new({})", instance(child)),
+            _ => format!("{id}{}", instance(child)),
+        },
     }
 }
 
@@ -1010,6 +1036,12 @@ pub fn features(n: &Node, depth: usize, acc: &mut Vec<&'static str>, styles: &mu
                 FKind::ValueStruct { .. } => acc.push("value-struct"),
                 FKind::StrEnum { .. } => acc.push("value-string-enum"),
                 FKind::Flatten { child, prefix } => {
+                    match flatten_wrap(f.val, child) {
+                        1 => acc.push("flatten-option-some"),
+                        2 => acc.push("flatten-option-none"),
+                        4 => acc.push("flatten-arc"),
+                        _ => {}
+                    }
                     let add = match prefix {
                         Some(Pfx::Inflect(_)) => {
                             acc.push("flatten-prefix");
